@@ -156,7 +156,14 @@ class ByteArray(SimpleModel):
 
     @classmethod
     def from_hex(cls, value):
-        return (unhexlify(_bytes_join(value)),)
+        try:
+            if isinstance(value, six.text_type):
+                value = value.encode('ascii')
+
+            return (unhexlify(_bytes_join(value)),)
+
+        except (TypeError, ValueError):
+            raise ValidationError(value)
 
 
 def _default_binary_encoding(b):
